@@ -23,15 +23,17 @@ impl FilterTrait<u8> for ToyFilter {
     }
     fn clear_filter(&mut self) { self.bits.store(0, AOrd::Relaxed); }
 }
-pub(crate) struct ToyBlob { id: u8, filter: ToyFilter }
+// `nofilter`: a child that offers no filter at all (as a Storage without closed blobs does when
+// storages are grouped): it can never be excluded
+pub(crate) struct ToyBlob { id: u8, filter: ToyFilter, nofilter: bool }
 #[async_trait::async_trait]
 impl BloomProvider<u8> for ToyBlob {
     type Filter = ToyFilter;
-    async fn check_filter(&self, item: &u8) -> FilterResult { self.filter.contains_fast(item) }
-    fn check_filter_fast(&self, item: &u8) -> FilterResult { self.filter.contains_fast(item) }
+    async fn check_filter(&self, item: &u8) -> FilterResult { if self.nofilter { FilterResult::NeedAdditionalCheck } else { self.filter.contains_fast(item) } }
+    fn check_filter_fast(&self, item: &u8) -> FilterResult { if self.nofilter { FilterResult::NeedAdditionalCheck } else { self.filter.contains_fast(item) } }
     async fn offload_buffer(&mut self, _: usize, _: usize) -> usize { 0 }
-    async fn get_filter(&self) -> Option<Self::Filter> { Some(self.filter.clone()) }
-    fn get_filter_fast(&self) -> Option<&Self::Filter> { Some(&self.filter) }
+    async fn get_filter(&self) -> Option<Self::Filter> { if self.nofilter { None } else { Some(self.filter.clone()) } }
+    fn get_filter_fast(&self) -> Option<&Self::Filter> { if self.nofilter { None } else { Some(&self.filter) } }
     async fn filter_memory_allocated(&self) -> usize { 0 }
 }
 
@@ -63,8 +65,9 @@ pub(crate) fn body_hier<S: Src>(s: &mut S, group_size: usize, ops: usize, nkeys:
         let is_push = s.bool();
         if is_push {
             let key = s.choose(nkeys);
-            let mergeable = s.bool();
-            let blob = ToyBlob { id: next_id, filter: ToyFilter { bits: AtomicU8::new(1 << key), mergeable } };
+            // 0: filter that merges, 1: filter that refuses merging, 2: no filter at all
+            let kind = s.choose(3);
+            let blob = ToyBlob { id: next_id, filter: ToyFilter { bits: AtomicU8::new(1 << key), mergeable: kind == 0 }, nofilter: kind == 2 };
             run(h.push(blob));
             live[next_id as usize] = true;
             keyof[next_id as usize] = key;
@@ -131,8 +134,8 @@ fn verif_bounded_hier() {
     let thorough = std::env::var("VERIF_BOUND").map(|v| v == "thorough").unwrap_or(false);
     let mut total = 0u64;
     for g in [2usize, 3, 4] {
-        total += enumerate(g, if thorough { 9 } else { 7 }, 2);
-        total += enumerate(g, if thorough { 8 } else { 6 }, 3);
+        total += enumerate(g, if thorough { 8 } else { 6 }, 2);
+        total += enumerate(g, if thorough { 7 } else { 5 }, 3);
     }
     println!("BOUNDED-OK harness=bounded_hier runs={}", total);
 }
